@@ -12,4 +12,9 @@ for d in workers/*/; do
   go build -tags verif $race -o ".bin/$id" "./$d" || rc=1
 done
 (cd /repo && go build -tags verif -o /verif/.bin/desync-verif ./cmd/desync) || rc=1
+# warm the cache for the builds the checks make themselves: libzstd (cgo) build of the CLI, cgo helper, shim
+(cd /repo && go build -tags "verif datadog" -o /verif/.bin/desync-datadog ./cmd/desync) || rc=1
+go build -o .bin/zstdcheck ./helpers/zstdcheck || rc=1
+go build -tags verif -o .bin/shim ./helpers/shim || rc=1
+(cd /repo && go build -o /verif/.bin/desync-plain ./cmd/desync) || rc=1
 exit $rc
